@@ -83,10 +83,16 @@ class SuffixTrie(object):
                 break
 
             child = node.children.get(part)
+            wildcard = node.children.get("*")
 
-            # Wildcards
+            # Wildcards: a wildcard rule matches this label even when the
+            # label also starts a longer, explicit rule
+            if wildcard is not None and wildcard.leaf:
+                suffix_length = current_length + 1
+                match = wildcard
+
             if child is None:
-                child = node.children.get("*")
+                child = wildcard
 
             # If the current part is not in current node's children, we can stop
             if child is None:
